@@ -130,6 +130,7 @@ type Sched struct {
 	AtomicPoints   bool // atomics are scheduling points
 	OfferTimers    bool // E1: timer firings are offered as environment alternatives
 	SelectCaseFree bool // choosing a non-first ready select case costs nothing (default: costs 1 deviation)
+	SpawnPoints    bool // a `go` statement is a scheduling point (the child may run first)
 	DelayBounding  bool // every non-default scheduling decision costs 1 (delay bounding) instead of preemption bounding
 	ChooseFree     bool // Choose answers other than 0 cost nothing (default true: data choices are enumerated at every bound)
 	RandChoose     bool // math/rand answers are Choose points (else fixed stream)
@@ -734,6 +735,10 @@ func Go(where string, fn func()) {
 		}
 	}
 	s.Spawn(fmt.Sprintf("%s#%d", name, n), false, fn)
+	// spawning is a visible operation: the new thread may run before the spawner's next step
+	if s.cur != nil && !s.cur.killed && s.SpawnPoints {
+		s.park(pendingOp{kind: OpYield, where: where})
+	}
 }
 
 // nodePrefix: thread names are "<node>/<rest>"; children inherit "<node>/".
